@@ -746,6 +746,10 @@ func runOnce(t *testing.T, sc scenario) (res *runResult) { //nolint:gocognit,cyc
 		}
 		cerr := relay.Close()
 		synctest.Wait()
+		// "at once": the filter gives responses 1 ns of latency, so allow the handful of round trips a stale-nonce
+		// retry needs (1 ms of virtual time), but no retransmission timer (>= 200 ms) and no expiry.
+		time.Sleep(time.Millisecond)
+		synctest.Wait()
 		res.CountAtClose = w.Srv.AllocationCount()
 		relayOpen := func() bool {
 			for _, s := range w.Net.OpenUDP() {
@@ -774,7 +778,7 @@ func runOnce(t *testing.T, sc scenario) (res *runResult) { //nolint:gocognit,cyc
 		case cerr != nil:
 			add("close-returned-error", cerr.Error())
 		case !closeTxHit && (res.CountAtClose != 0 || openAtClose):
-			add("allocation-survives-close:refresh0-answer="+fc.answerOf("Refresh0#1"), fmt.Sprintf("after relayConn.Close() at %.2fs and quiescence: AllocationCount=%d relay socket open=%v; 10 s later: AllocationCount=%d",
+			add("allocation-survives-close:refresh0-answer="+fc.answerOf("Refresh0#1"), fmt.Sprintf("after relayConn.Close() at %.2fs, 1 ms and quiescence: AllocationCount=%d relay socket open=%v; 10 s later: AllocationCount=%d",
 				closeAt.Seconds(), res.CountAtClose, openAtClose, res.CountLater))
 		case closeTxHit && (res.CountLater != 0 || relayOpen()):
 			add("allocation-survives-close:refresh0-answer="+fc.answerOf("Refresh0#1"), fmt.Sprintf("Refresh(0) lost its first transmissions; 10 s after Close: AllocationCount=%d relay socket open=%v",
@@ -899,16 +903,30 @@ func position(txs []txRec, id string) int {
 
 // sameTxSeconds: given the run with d1 alone, the second deviations on d1's own transaction: the three response
 // deviations applied to the response of its last transmission (the one that got through, or the stray one).
-func sameTxSeconds(d1 deviation, txs []txRec) []deviation {
-	pos := position(txs, d1.Tx)
-	if pos < 0 {
+//
+// The number of transmissions of d1's transaction in the run with d1 alone follows from d1: k+1 after "drop the
+// first k", 2 after a dropped or delayed response, 1 after a duplicated one (no second deviation possible then).
+// Refresh(0) is the exception: once one request got through the allocation is gone and the server stays silent
+// on retransmissions (handleRefreshRequest), so there is no further response to deviate.
+func sameTxSeconds(d1 deviation) []deviation {
+	n := 0
+	switch d1.Kind {
+	case "dropreq":
+		n = d1.K + 1
+	case "dropresp", "delay":
+		n = d1.K + 1
+		if strings.HasPrefix(d1.Tx, "Refresh0#") {
+			return nil
+		}
+	default:
+		return nil
+	}
+	if n > 6 {
 		return nil
 	}
 	var out []deviation
-	if n := txs[pos].Sent; n <= 6 && (d1.Kind == "dropreq" || n > d1.K) {
-		for _, kind := range []string{"dropresp", "dup", "delay"} {
-			out = append(out, deviation{Tx: d1.Tx, Kind: kind, K: n, AtS: txs[pos].AtS})
-		}
+	for _, kind := range []string{"dropresp", "dup", "delay"} {
+		out = append(out, deviation{Tx: d1.Tx, Kind: kind, K: n, AtS: d1.AtS})
 	}
 
 	return out
@@ -1142,17 +1160,17 @@ func TestC14Pairs(t *testing.T) { //nolint:gocognit,cyclop
 			if !mine(key + d1.String()) {
 				continue
 			}
-			s1 := base
-			s1.Devs = []deviation{d1}
-			rep.Current(s1)
-			r1 := runOnce(t, s1) // judged by TestC14Faults; here it only supplies the transactions that follow d1
-			if !r1.allApplied() {
-				tl.notReached++
-
-				continue
-			}
-			seconds := sameTxSeconds(d1, r1.Txs)
+			seconds := sameTxSeconds(d1)
 			if cross[cb.pat] && isExtreme(d1) {
+				s1 := base
+				s1.Devs = []deviation{d1}
+				rep.Current(s1)
+				r1 := runOnce(t, s1) // judged by TestC14Faults; here it only supplies the transactions that follow d1
+				if !r1.allApplied() {
+					tl.notReached++
+
+					continue
+				}
 				seconds = append(seconds, laterTxSeconds(d1, r1.Txs, extremeAlphabet)...)
 			}
 			for _, d2 := range seconds {
